@@ -73,6 +73,9 @@ CHECKS.update({
             "Runtime monitor: a full agent (real router, middleware, handlers) is probed with every route and probing paths x 7 methods x ~25 Authorization shapes derived from a random token (prefixes, suffixes, superstrings, case flips, other schemes), each request carrying a body that would change state if admitted; without the exact bearer token the status must be 4xx and the state digests unchanged, with it never 401/403, and without a configured token never 401. Then ~70 write/DDL/PRAGMA/ATTACH/VACUUM/extension-function statements and their seeded mutations are sent to /v1/queries and /v1/subscriptions and tables, cell metadata, bookkeeping, sqlite_schema, crsql_db_versions, user_version and the file set next to the database must stay identical.",
             "§3-C17", "lower-case scheme, repeated spaces after the scheme and duplicated headers are recorded, not judged"),
 })
+CHECKS["C11"] = (True, "exploration", "real node + real api_v1_subs/matcher tasks under generated query templates x histories (local, remote complete, remote chunked/buffered); quiescence from hook log; oracle = user's SELECT re-run vs materialised rows vs fold of the event stream",
+    "Runtime monitor: 3-6 concurrent subscriptions from 19 query templates (filters, expressions, CASE/BETWEEN/LIKE/IN, key-only projections, INNER and LEFT joins over 2-3 tables, aliases, composite and nullable-side keys) on one real node; histories of local transactions and of changesets authored by a second real node, delivered complete or cut into chunks (buffered apply), in any order; at logical matcher quiescence (hook log: match.sent == match.recv and idle) the monitor compares the materialised rows with the query re-run on the node database, the fold of the stream (rows + change events, by row id) with the materialised rows, checks change ids +1, update events that change nothing, insert/delete events for present/absent row ids, and events emitted although no table changed.",
+    "§3-C11", "LEFT JOIN divergence after a nullable-side-only change is the known finding F7; histories that keep nullable-side changes together with the joined left-hand rows judge LEFT JOIN strictly")
 
 NOT_YET = {
 }
